@@ -62,6 +62,56 @@ def model_mismatches(ctx, name, rows, shard=1000, workers=6):
     return sorted(i for r in res for i in r)
 
 
+# ---- exhaustive scopes by checksum (Corr.fold_strings evaluated in Coq  vs  h_lex -cksum on lexer.New)
+ALPHA = [b"a", b"1", b" ", b'"', b"\\", b"<", b">", b"/", b",", b";", b"(", b"]"]
+CK_PREFIXES = [b"before ", b"= ", b"filter ", b'"a"^^type:', b'"a"@[', b'"', b"?", b"_:", b"/a<", b'"a"^^type:int64', b"@",
+               b"between 1,"]
+
+
+def go_cksums(items):
+    spec = ",".join("%s:%d" % (p.hex(), d) for p, d in items)
+    p = subprocess.run([os.path.join(BIN, "h_lex"), "-cksum", spec], cwd=REPO, env=vcheck.goenv(), stdout=subprocess.PIPE,
+                       stderr=subprocess.PIPE, timeout=3000, text=True)
+    if p.returncode != 0:
+        raise vcheck.Broken("h_lex -cksum failed", p.stdout[-1000:] + p.stderr[-1000:])
+    rows = [json.loads(l) for l in p.stdout.splitlines() if l.startswith("{")]
+    return [int(r["hash"]) for r in rows], sum(r["count"] for r in rows)
+
+
+def coq_cksums(ctx, name, items, timeout=3000):
+    v = HEADER + "Definition alpha : list (list byte) := %s.\n" % vcheck.coq_list([vcheck.coq_bytes(a) for a in ALPHA])
+    v += "Definition R := Eval vm_compute in [%s].\nPrint R.\n" % "; ".join(
+        "fold_strings alpha %d %s 0" % (d, vcheck.coq_bytes(p)) for p, d in items)
+    out = vcheck.coq_eval(ctx.work, name, v, timeout=timeout)
+    return vcheck.parse_nat_list(out, "R")
+
+
+def cksum_compare(ctx, name, items, parallel=1):
+    """returns the items whose checksums differ"""
+    go, count = go_cksums(items)
+    if parallel <= 1:
+        cq = coq_cksums(ctx, name, items)
+    else:
+        with concurrent.futures.ThreadPoolExecutor(max_workers=parallel) as ex:
+            cq = [r[0] for r in ex.map(lambda iv: coq_cksums(ctx, "%s_%d" % (name, iv[0]), [iv[1]]), enumerate(items))]
+    if len(cq) != len(go):
+        raise vcheck.Broken("checksum lists of different length", "%s vs %s" % (len(cq), len(go)))
+    return [it for it, a, b in zip(items, go, cq) if a != b], count
+
+
+def cksum_bisect(ctx, prefix, depth):
+    """a concrete string below (prefix, depth) on which model and implementation differ"""
+    for _ in range(12):
+        if depth == 0:
+            return prefix
+        items = [(prefix, 0)] + [(prefix + a, depth - 1) for a in ALPHA]
+        bad, _ = cksum_compare(ctx, "cksum_bisect", items)
+        if not bad:
+            return None
+        prefix, depth = bad[0]
+    return prefix
+
+
 WS = set(b"\t\n\v\f\r ")
 
 
@@ -167,13 +217,14 @@ def pair_problem(base, var):
 
 
 def run(ctx):
-    info = vcheck.coq_props("Lexer", "C16")
-    ctx.add_obligations(info)
+    # Props/C16.v is compiled concurrently with the correspondence runs (joined below)
+    pool = concurrent.futures.ThreadPoolExecutor(max_workers=1)
+    props = pool.submit(vcheck.coq_props, "Lexer", "C16")
     ctx.cov["checker_cmd"] = ("genlex -o coq/Lexer/Gen/LexTablesGen.v (cwd /repo); make -C coq/Lexer; "
                               "coqc -Q coq/Lexer BWLexer coq/Lexer/Props/C16.v; h_lex | checks/c16.py (model evaluated by vm_compute)")
     thorough = ctx.tier == "thorough"
     args = ["-seed", str(ctx.seed)]
-    args += ["-n", "3000", "-exhaust", "5", "-exhaustp", "3"] if thorough else ["-n", "250", "-exhaust", "3", "-exhaustp", "2"]
+    args += ["-n", "3000", "-exhaust", "4", "-exhaustp", "2"] if thorough else ["-n", "250", "-exhaust", "2", "-exhaustp", "1"]
     rows, trailer = hlex(args)
     findings = {f.get("id"): f for f in vcheck.known_findings("C16")}
 
@@ -194,6 +245,20 @@ def run(ctx):
     for i in bad:
         violation({"kind": "lexer-model-vs-real-lexer", "case": rows[i],
                    "explain": "lex (Coq, vm_compute) and lexer.New disagree on the (kind, text) sequence"})
+    # 2b. exhaustive small scopes by checksum (model evaluated in Coq over ALL strings, compared with lexer.New)
+    if thorough:
+        items = [(b"", 0)] + [(a, 5) for a in ALPHA] + [(p, 4) for p in CK_PREFIXES]
+        par = 8
+    else:
+        items = [(b"", 4)] + [(p, 2) for p in CK_PREFIXES]
+        par = 1
+    badck, nck = cksum_compare(ctx, "cksum_c16", items, parallel=par)
+    for pfx, d in badck[:3]:
+        w = cksum_bisect(ctx, pfx, d)
+        violation({"kind": "lexer-model-vs-real-lexer", "explain": "checksum over the exhaustive scope differs",
+                   "scope": {"prefix": pfx.hex(), "depth": d},
+                   "case": (hlex(["-only", "none", "-one", w.hex()])[0] or [None])[0] if w is not None else None})
+    ctx.cov["exhaustive_by_checksum"] = {"strings": nck, "scopes": ["%s+%d" % (p.decode(), d) for p, d in items]}
     # 3. case / whitespace variants on the implementation
     known_hit = {}
     npairs = 0
@@ -231,7 +296,9 @@ def run(ctx):
         else:
             ctx.notes.append("finding %s no longer reproduces" % fid)
 
-    ctx.cov["evaluations"] = len(rows)
+    ctx.add_obligations(props.result())
+    pool.shutdown()
+    ctx.cov["evaluations"] = len(rows) + nck
     seen = set()
     for r in rows:
         if len(r["toks"]) >= 2:
@@ -247,8 +314,10 @@ def run(ctx):
     ctx.cov["max_input_bytes"] = max(len(r["in"]) // 2 for r in rows)
     ctx.cov["channel_capacities"] = [0, 1, 2, 64]
     ctx.cov["generator"] = trailer
-    ctx.cov["exhaustive"] = ("all strings over the 12 symbols a 1 SP \" \\ < > / , ; ( ] up to length %s, and up to length %s "
-                             "after each of 12 context prefixes" % (("5", "3") if thorough else ("3", "2")))
+    ctx.cov["exhaustive"] = ("all strings over the 12 symbols a 1 SP \" \\ < > / , ; ( ] up to length %s and up to length %s after "
+                             "each of 12 context prefixes: model evaluated in Coq on every string, compared with lexer.New through a "
+                             "61-bit polynomial checksum of the (kind,text) sequences (bisected to a concrete string on mismatch); "
+                             "additionally token by token up to length %s / %s" % (("6", "4", "4", "2") if thorough else ("4", "2", "2", "1")))
     ctx.cov["samples"] = [{"in": bytes.fromhex(r["in"]).decode("utf-8", "replace"),
                            "toks": [[k, bytes.fromhex(t).decode("utf-8", "replace")] for k, t in r["toks"]]}
                           for r in rows if r["g"] == "stmt"][:3]
